@@ -29,6 +29,20 @@ def texts():
                 s = w(s)
                 if k in ('lam', 'formals', 'inherit', 'with', 'concat_nl', 'concat_chain_r', 'update_chain_r', 'impl_chain_r', 'lam_nl', 'with_nl') and n > 12: break        # exponential families (multiplicity 2 in Small.CostFam.table): finding F-19, bounded here
                 if n in (1, 2, 5, 12, 30, 60): yield 'nest-%s' % k, s
+    # width / indentation family (ninth round): the cost of reading a gap must not grow faster than its length — runs of spaces between any two tokens
+    # of a lambda head, a set, a list, a call; the same constructs pushed to column 2·d by d enclosing multi-line sets
+    for k_ in (1, 2, 8, 16, 24, 32, 48, 64):
+        pad = ' ' * k_
+        for tpl in ['{ a,@b }: a', '{ a@, b }: a', '{ a ?@1, ... }: a', '{@a, ... }: a', '{ a, ...@}: a', '{ a =@1; }', '[ 1@2 ]', 'f@x', 'a:@a', 'let a =@1; in@a', 'inherit@a;', '{ inherit (p)@a; }', 'a +@b', 'if a@then b else c', 'with a;@b', 'a.b or@c']:
+            yield 'space-run', tpl.replace('@', pad)
+            yield 'space-run-nl', tpl.replace('@', '\n' + pad)
+    for d_ in (1, 4, 8, 10, 12, 14, 16, 20, 24, 32):
+        for inner in ['{\n@  x,\n@  ...\n@}:\n@x', '{\n@  x ? 1,\n@  y,\n@  ...\n@}@args:\n@x', '[\n@  1\n@  2\n@]', 'let\n@  a = 1;\n@in\n@a', 'f {\n@  a = 1;\n@}', 'if a then\n@  b\n@else\n@  c']:
+            ind = '  ' * d_
+            s_ = inner.replace('@', ind)
+            doc = s_
+            for j in range(d_, 0, -1): doc = '{\n' + '  ' * j + 'a%d =\n' % j + ('  ' * (j + 1)) + doc + ';\n' + '  ' * (j - 1) + '}'
+            yield 'deep-indent', doc
     # character-level family (fourth round of seeds): CR / CRLF line ends, every short tail of line terminators and blanks after
     # the last token and before the first one, form feed / vertical tab / NUL / BOM / non-ASCII in the same places
     TAILS = ['', '\n', '\r\n', '\r', '\n\n', '\r\n\r\n', '\n\r\n', '\r\n\n', '\r\r', '\n\r', ' \r\n \r\n', '\t\r\n\t', '\n\n\n', '\r\n\r\n\r\n', '\f', '\v\n', '\x00', '\ufeff', '\u00a0\n', '\u2028', ' ', '\t']
